@@ -257,7 +257,7 @@ def run(ctx, res):
     # i.e. if every block pushed by an evaluation has been popped or is still owed by a pending entry: C06's discipline.
     # Its rules are run here too, because a block leaked at the top level turns `:abort` into a loss of toplevel variables.
     from . import c06 as _c06
-    _c06.run(ctx, res)
+    _c06.run(ctx, res, with_frame_cover=False)
     _extra = dict(res.extra)
     # ---- ABORT-CALLS
     rc = P.require_fn("commands::run_command")
